@@ -402,6 +402,8 @@ def gen_form_case(rng):
             case["value"] = "a"
     for _ in range(rng.range(2, 5)):
         r = rng.below(100)
+        if rng.chance(25):
+            case["ops"].append({"op": "validate"})
         if r < 55:
             m = rng.choice(form_members(cls) + ["value"])
             v = form_value_for(rng, cls) if m == "value" else rng.choice(FORM_MEMBER_VALUES[m])
@@ -649,6 +651,16 @@ def drive_one(case, work):
         except Exception as e:  # noqa: BLE001
             return {"base_error": type(e).__name__}
         obs = {"spec": reflect(base), "extra0": enc(dict(base._extra_members), work), "active0": list(base._active_members)}  # pylint: disable=protected-access
+
+        def rebuilt(p):
+            """a new object constructed from the current form() of p: what validate() should be a function of"""
+            fm = dict(p.form())
+            fm.pop("value", None)
+            fm.pop("choice_list", None)
+            args = {"value": p.value}
+            if "choice_list" in case:
+                args["choice_list"] = list(case["choice_list"])
+            return cls("my", **args, **fm)
         kwargs = {k2: dec(v, work) for k2, v in case["kwargs"]}
         try:
             param = build(kwargs)
@@ -658,6 +670,8 @@ def drive_one(case, work):
             return obs
         obs["ctor_form"] = enc(param.form(), work)
         obs["ctor_active"] = list(param.active)
+        vd = {k2: sorted(v) for k2, v in param.validations.items()}       # frozen at construction
+        obs["validations"] = {"reqm": vd.get("required_form_members", []), "req": vd.get("required"), "other": sorted(set(vd) - {"required_form_members", "required"})}
         uij = UIJson({"title": P.StringParameter("title", "t"), "geoh5": P.WorkspaceParameter("geoh5"), "my": param})
         steps = []
         for op in case["ops"]:
@@ -669,6 +683,12 @@ def drive_one(case, work):
                     st["fresh"] = _verdict(setattr, fresh, op["m"], dec(op["v"], work))
                 except Exception:  # noqa: BLE001
                     st["fresh"] = st["verdict"]
+            elif op["op"] == "validate":
+                st["verdict"] = _verdict(param.validate)
+                try:
+                    st["fresh"] = _verdict(rebuilt(param).validate)
+                except Exception as e:  # noqa: BLE001
+                    st["fresh"] = "rebuild:" + type(e).__name__
             elif op["op"] == "register":
                 st["verdict"] = _verdict(param.register, {k2: dec(v, work) for k2, v in op["items"]})
             else:
@@ -894,7 +914,12 @@ def case_term(case, obs):
                 e = cexn(st["verdict"])
                 if e is None:
                     return "false"
-                if op["op"] == "set":
+                if op["op"] == "validate":
+                    vd = obs["validations"]
+                    if vd["other"]:
+                        return None
+                    ops.append(f"FValidate {alist(vd['reqm'])} {alist(vd['req'] or [])} {C.cbool(vd['req'] is not None)}")
+                elif op["op"] == "set":
                     ops.append(f"FSet {uipv.cstring(op['m'])} {coq(op['v'])}")
                 elif op["op"] == "register":
                     ops.append(f"FRegister {items_term(op['items'])}")
@@ -1213,6 +1238,12 @@ def oracle(case, obs):  # noqa: C901
         prev_form, prev_active = obs["ctor_form"], obs["ctor_active"]
         for i, (op, st) in enumerate(zip(case["ops"], obs["steps"])):
             changed = st["form"] != prev_form or st["active"] != prev_active
+            if op["op"] == "validate":
+                if not str(st.get("fresh", "")).startswith("rebuild:") and st["verdict"] != st.get("fresh"):
+                    fails.append({"key": "form-validate-depends-on-construction-history",
+                                  "what": f"op {i}: validate() -> {st['verdict']}, an object constructed from the same form() {st['form']!r} -> {st['fresh']}"})
+                    break
+                continue
             if op["op"] == "set" and st["verdict"] != st.get("fresh"):
                 fails.append({"key": "form-verdict-depends-on-history",
                               "what": f"op {i}: {op['m']} = {op['v']!r} -> {st['verdict']} on the used form, {st['fresh']} on a fresh one"})
